@@ -106,9 +106,11 @@ def run_contract_cached(c, tier, timeout_ms):
         except Exception:
             pass
     doc = run_contract(c, tier, timeout_ms)
-    tmp = cpath + f".{os.getpid()}.tmp"
-    json.dump(doc, open(tmp, "w"), default=str)
-    os.replace(tmp, cpath)
+    if all(r["status"] == "unsat" for r in doc["results"]) and not doc["undecided"] and not doc["errors"]:
+        # only fully discharged results are reused; anything else is recomputed every time
+        tmp = cpath + f".{os.getpid()}.tmp"
+        json.dump(doc, open(tmp, "w"), default=str)
+        os.replace(tmp, cpath)
     return doc
 
 
@@ -130,6 +132,15 @@ def run_contract(c, tier, timeout_ms):
         for o in g.obls:
             o.probes = pr
     res = solve.discharge_all(g.obls, timeout_ms=timeout_ms)
+    # second opinion for anything not discharged while all cores were busy: one at a time, doubled budget
+    # (a verdict must not depend on machine load)
+    weak = [i for i, r in enumerate(res) if r["status"] in ("unknown", "sat-inst")]
+    if weak and len(weak) <= 40:
+        again = solve.discharge_all([res[i]["obl"] for i in weak], timeout_ms=timeout_ms * 2, parallel=False)
+        for i, r2 in zip(weak, again):
+            if r2["status"] == "unsat" or (res[i]["status"] == "unknown" and r2["status"] != "unknown"):
+                r2["time"] += res[i]["time"]
+                res[i] = r2
     for r in res:
         o = r["obl"]
         doc["results"].append({"id": o.id, "kind": o.kind, "path": getattr(o, "path", ""), "line": o.line, "note": o.note,
@@ -237,7 +248,9 @@ def main():
     for r in all_results:
         for b in r["backends"]:
             backends[b] = backends.get(b, 0) + 1
-    refuted = [r for r in all_results if r["status"] in ("sat", "sat-inst")]
+    # "sat": a validated counter-model of the full query. "sat-inst": a counter-model only of the query with its
+    # quantified hypotheses replaced by instances -- weaker evidence, treated like an undischarged obligation.
+    refuted = [r for r in all_results if r["status"] == "sat"]
     # baseline rule: an obligation that was discharged on the unchanged tree and can no longer be discharged
     # after the function under contract changed is reported as a violation (no input found); if the function
     # is unchanged the solver is to blame and the obligation stays undecided.
@@ -245,7 +258,7 @@ def main():
     baseline = json.load(open(base_path)) if os.path.exists(base_path) else {}
     regressed = []
     for r in all_results:
-        if r["status"] in ("unknown",):
+        if r["status"] in ("unknown", "sat-inst"):
             c = r["contract"]
             b = baseline.get(c.key)
             sha = gens[c.key]["function"]["source_sha"]
@@ -253,7 +266,7 @@ def main():
                 r["status"] = "regressed"
                 regressed.append(r)
     for r in all_results:
-        if r["status"] == "unknown":
+        if r["status"] in ("unknown", "sat-inst"):
             undecided.append(f"{r['obl'].id}: solver unknown ({'; '.join(p.get('reason','') for p in r['parts'] if p['status']!='unsat')[:200]})")
         elif r["status"] == "error":
             errors.append(f"{r['obl'].id}: solver error {[p.get('reason') for p in r['parts'] if p['status']=='error'][:1]}")
